@@ -9,6 +9,9 @@
      shared_future.h:87-93   ctor from fn(promise)         -> mode MFn   : make_shared(fn) ; charge
      shared_future.h:104-110 ctor from fn returning future -> mode MFut  : make_shared() ; result_of(fn) ; if pending() charge
      shared_future.h:130-145 init_if_needed / get_promise  -> modes MLate, MLate2 (through a copy of an initialised handle)
+     shared_future.h:130-132,148-151 init_if_needed, ready -> mode MLate3: default ctor + init_if_needed(), copies handed to polling /
+                                                              dropping users BEFORE get_promise() (ready() must say "not ready"), then
+                                                              get_promise() + charge, then the remaining users
      shared_future.h:120-122 set_value                     -> mode MPre  (born ready: not pending, no charge)
      shared_future.h:104-110 + async.h:50-59,216-229       -> mode MCoro : ctor from `[&]{return coro().start();}`: the state is
                                                               the future of an async coroutine parked on a gate; the resolver opens
@@ -29,7 +32,7 @@ Inductive outcome := ONone | OVal (v : Z) | OExc (e : Z) | ONotReady.
 Inductive node := NT | NU (w : nat).
 Inductive slotv := SChain (l : list node) | SReady.
 
-Inductive cmode := MFn | MFut | MLate | MLate2 | MPre (v : Z) | MCoro.
+Inductive cmode := MFn | MFut | MLate | MLate2 | MPre (v : Z) | MCoro | MLate3.
 Inductive cpc :=
 | CClaim                        (* at "claim": the promise handed to the init function is moved to the resolver's mailbox *)
 | CDtor                         (* at "dtor": the moved-from promise dies; then make_shared returns (MFut: pending() is read) *)
@@ -40,7 +43,9 @@ Inductive cpc :=
 | CDrop (k : nat)               (* at "sf_dec": drop one of the creator's k own handles *)
 | CDone
 | CGate1                        (* MCoro, at "ready": the producer coroutine tests its gate (async::start, async.h:50-59) *)
-| CGate2.                       (* MCoro, at "sub": the producer parks on its gate; from now on the resolver may open it *)
+| CGate2                        (* MCoro, at "sub": the producer parks on its gate; from now on the resolver may open it *)
+| CGiveE.                       (* MLate3, at "sf_inc": after init_if_needed() and BEFORE get_promise() a copy is handed to the
+                                   next user that only polls or drops (awaiting a state whose promise was not taken is misuse) *)
 
 Inductive rkind := KVal (v : Z) | KExc (e : Z) | KDrop.
 Inductive rpc :=
@@ -157,8 +162,19 @@ Fixpoint give (l : list uthr) : option (list uthr) :=
   | u :: r => if is_wait0 u then Some (set_upc u UWait1 :: r)
               else match give r with Some r' => Some (u :: r') | None => None end
   end.
+(* users that may receive a copy of an initialised state whose promise has not been taken yet *)
+Definition is_early (u : uthr) : bool :=
+  is_wait0 u && match ukd u with UKAwait _ => false | _ => true end.
+Fixpoint give_early (l : list uthr) : option (list uthr) :=
+  match l with
+  | [] => None
+  | u :: r => if is_early u then Some (set_upc u UWait1 :: r)
+              else match give_early r with Some r' => Some (u :: r') | None => None end
+  end.
+Definition next_early (l : list uthr) : cpc := if existsb is_early l then CGiveE else CSet.
+
 Definition own_handles (m : cmode) : nat := match m with MLate2 => 2%nat | _ => 1%nat end.
-Definition is_late (m : cmode) : bool := match m with MLate | MLate2 => true | _ => false end.
+Definition is_late (m : cmode) : bool := match m with MLate | MLate2 | MLate3 => true | _ => false end.
 Definition next_give (l : list uthr) (m : cmode) : cpc :=
   if existsb is_wait0 l then CGive else CDrop (own_handles m).
 
@@ -218,6 +234,11 @@ Definition after_charge (s : st) : st :=
 Definition cstep (s : st) : st * Z :=
   match cpcf s with
   | CClaim => (match mode s with MCoro => set_cpc s CGate1 | _ => set_cpc (set_pavail s true) CDtor end, 1)
+  | CGiveE =>
+      (match give_early (users s) with
+       | Some us => set_cpc (set_users (add_ref s) us) (next_early us)
+       | None => set_cpc s CSet
+       end, 54)
   | CGate1 => (set_cpc s CGate2, 5)
   | CGate2 => (set_cpc (set_pavail s true) CDtor, 6)
   | CDtor =>
@@ -351,7 +372,7 @@ Fixpoint run_sched (fuel : nat) (s : st) (sched : list Z) (tr : list (nat * Z)) 
 Definition decode_mode (l : list Z) : list cmode :=
   match l with
   | [0; 0; _] => [MFn] | [0; 1; _] => [MFut] | [0; 2; _] => [MLate] | [0; 3; _] => [MLate2] | [0; 4; v] => [MPre v]
-  | [0; 5; _] => [MCoro]
+  | [0; 5; _] => [MCoro] | [0; 6; _] => [MLate3]
   | _ => []
   end.
 Definition decode_res (l : list Z) : list rkind :=
@@ -364,7 +385,9 @@ Definition decode_cp (c : Z) : option cpk :=
 Definition decode_uk (k : Z) : option ukind :=
   match k with
   | 0 => Some UKDrop | 1 => Some UKPoll | 2 => Some (UKAwait WCoro) | 3 => Some (UKAwait WBlock)
-  | 4 => Some (UKAwait WCallback) | _ => None
+  | 4 => Some (UKAwait WCallback)
+  | 5 => Some (UKAwait WBlock)     (* join(): same code path as wait() = sync() + value() (shared_future.h:177-179) *)
+  | _ => None
   end.
 Definition decode_user (l : list Z) : list uthr :=
   match l with
@@ -386,6 +409,7 @@ Definition init_cpc (m : cmode) (us : list uthr) : cpc :=
   match m with
   | MFn | MFut | MCoro => CClaim
   | MLate | MLate2 => CSet
+  | MLate3 => next_early us
   | MPre _ => next_give us m
   end.
 
